@@ -209,7 +209,24 @@ func check(args []string) {
 		total.Merge(col)
 		stats.Merge(&st)
 	}
-	finish(prop, *tierName, seed, total, stats, cfgNames, files, start, *verbose, nil)
+	var extra map[string]any
+	if *tierName == "thorough" && overlay == nil {
+		// positive/negative self-validation on overlays of the current tree (informational)
+		rows, killed, survived, silent, alarms, stale := runBattery(prop, *dir, rules.Tier{Name: "quick", Depth: 4})
+		extra = map[string]any{
+			"self_validation": map[string]any{
+				"seeded_violations_killed": killed, "seeded_violations_survived": survived,
+				"benign_variants_silent": silent, "benign_variants_alarmed": alarms, "stale_entries": stale,
+				"rows": rows,
+				"note": "catalogue entries targeting this property, applied as overlays on the current sources; informational, never changes the exit status",
+			},
+		}
+		fmt.Printf("self-validation: %d seeded violations killed, %d survived; %d benign variants silent, %d alarmed; %d stale\n", killed, survived, silent, alarms, stale)
+		if survived > 0 || alarms > 0 {
+			fmt.Println("WARNING: the self-validation battery has survivors or false alarms (see evidence.coverage.self_validation)")
+		}
+	}
+	finish(prop, *tierName, seed, total, stats, cfgNames, files, start, *verbose, extra)
 }
 
 // checkMany evaluates several properties on the default configuration sharing
